@@ -168,12 +168,51 @@ pub fn gen_arrangement(src: &mut Src) -> Arrangement {
             (Some(list), env)
         }
     };
-    Arrangement { n_dirs, files, main, search, env, entry, decoy_stdgates: src.chance(1, 4) }
+    let decoy_stdgates = src.chance(1, 4);
+    // Appended draws (so that earlier choice sequences still decode to the same arrangement):
+    // some relative includes become absolute paths of one particular copy (which may not exist).
+    let absolutise = |text: &str, src: &mut Src| -> String {
+        let mut out = String::new();
+        for line in text.lines() {
+            if let Some(name) = line.strip_prefix("include \"").and_then(|r| r.strip_suffix("\";")) {
+                if let Some(f) = NAMES.iter().position(|n| *n == name) {
+                    if src.chance(1, 5) {
+                        let d = src.below(n_dirs);
+                        out.push_str(&format!("include \"{{ABS:{f}:{d}}}\";\n"));
+                        continue;
+                    }
+                }
+            }
+            out.push_str(line);
+            out.push('\n');
+        }
+        out
+    };
+    let main = absolutise(&main, src);
+    for f in files.iter_mut() {
+        f.body = absolutise(&f.body, src);
+    }
+    Arrangement { n_dirs, files, main, search, env, entry, decoy_stdgates }
 }
 
 struct Laid {
     root: PathBuf,
     dirs: Vec<PathBuf>,
+    /// main text with `{ABS:f:d}` replaced by the absolute path of that copy
+    main: String,
+}
+
+fn subst_abs(text: &str, dirs: &[PathBuf]) -> String {
+    let mut out = text.to_string();
+    for (f, name) in NAMES.iter().enumerate() {
+        for (d, dir) in dirs.iter().enumerate() {
+            let pat = format!("{{ABS:{f}:{d}}}");
+            if out.contains(&pat) {
+                out = out.replace(&pat, &dir.join(name).display().to_string());
+            }
+        }
+    }
+    out
 }
 
 fn materialise(a: &Arrangement) -> std::io::Result<Laid> {
@@ -189,15 +228,16 @@ fn materialise(a: &Arrangement) -> std::io::Result<Laid> {
     }
     for (fi, f) in a.files.iter().enumerate() {
         for d in &f.dirs {
-            std::fs::write(dirs[*d].join(&f.name), f.body.replace("{M}", &marker(fi, *d)))?;
+            std::fs::write(dirs[*d].join(&f.name), subst_abs(&f.body.replace("{M}", &marker(fi, *d)), &dirs))?;
         }
     }
     if a.decoy_stdgates {
         std::fs::write(dirs[0].join("stdgates.inc"), "int decoy_stdgates_was_read = 1;\n")?;
     }
     std::fs::create_dir_all(root.join("main"))?;
-    std::fs::write(root.join("main").join("main.qasm"), &a.main)?;
-    Ok(Laid { root, dirs })
+    let main = subst_abs(&a.main, &dirs);
+    std::fs::write(root.join("main").join("main.qasm"), &main)?;
+    Ok(Laid { root, dirs, main })
 }
 
 /// Reference resolution rule.
@@ -237,7 +277,7 @@ fn inline(a: &Arrangement, l: &Laid, text: &str, depth: usize, files_read: &mut 
                     Some(p) if depth < 6 => {
                         let body = std::fs::read_to_string(&p).unwrap_or_default();
                         files_read.push(p.clone());
-                        if a.files.iter().any(|f| f.name == name && f.has_syntax_fault) {
+                        if a.files.iter().any(|f| name.ends_with(&f.name) && f.has_syntax_fault) {
                             *any_syntax_fault = true;
                         }
                         out.push_str(&inline(a, l, &body, depth + 1, files_read, any_syntax_fault));
@@ -343,9 +383,9 @@ fn run_impl(a: &Arrangement, l: &Laid) -> Result<Run, PanicInfo> {
                 }};
             }
             match a.entry {
-                Entry::StringWithSearch => finish!(parse_source_string_with_path_search(&a.main, Some("main.qasm"), search.as_deref()), Some(a.main.as_str())),
-                Entry::FileWithSearch => finish!(parse_source_file_with_search(&main_path, search.as_deref()), Some(a.main.as_str())),
-                Entry::FilePlain => finish!(parse_source_file(&main_path), Some(a.main.as_str())),
+                Entry::StringWithSearch => finish!(parse_source_string_with_path_search(&l.main, Some("main.qasm"), search.as_deref()), Some(l.main.as_str())),
+                Entry::FileWithSearch => finish!(parse_source_file_with_search(&main_path, search.as_deref()), Some(l.main.as_str())),
+                Entry::FilePlain => finish!(parse_source_file(&main_path), Some(l.main.as_str())),
             }
         })
     };
@@ -380,7 +420,7 @@ pub fn check_arrangement(a: &Arrangement, out: &mut Vec<Failure>) -> (bool, bool
     let detail = |what: String, exp: String| json!({"input": {"arrangement": format!("{a:?}")}, "actual": what, "expected": exp});
     let mut files_read = vec![];
     let mut syntax_fault = false;
-    let inlined = inline(a, &l, &a.main, 0, &mut files_read, &mut syntax_fault);
+    let inlined = inline(a, &l, &l.main, 0, &mut files_read, &mut syntax_fault);
     let reference = crate::pipeline::analyze(&inlined);
     let got = run_impl(a, &l);
     let nontrivial = files_read.len() >= 2 || a.files.iter().any(|f| f.dirs.len() >= 2);
@@ -450,7 +490,7 @@ pub fn check_arrangement(a: &Arrangement, out: &mut Vec<Failure>) -> (bool, bool
                     }
                 }
                 // missing file: FileNotFound on the path literal of the include statement
-                let n_missing_expected = count_unreadable(a, &l, &a.main, 0);
+                let n_missing_expected = count_unreadable(a, &l, &l.main, 0);
                 let n_fnf = g.kinds.iter().filter(|k| k.as_str() == "FileNotFound").count();
                 if n_fnf != n_missing_expected {
                     out.push(Failure::new("C18:file-not-found-count", detail(format!("{n_fnf}"), format!("{n_missing_expected}"))));
@@ -459,7 +499,7 @@ pub fn check_arrangement(a: &Arrangement, out: &mut Vec<Failure>) -> (bool, bool
                     for (k, s, e) in errs {
                         if k == "FileNotFound" {
                             // the range is a quoted path literal somewhere in an includer: check on the main text when it fits
-                            let lit_ok = a.main.get(*s..*e).map(|t| t.starts_with('"') && t.ends_with('"')).unwrap_or(false)
+                            let lit_ok = l.main.get(*s..*e).map(|t| t.starts_with('"') && t.ends_with('"')).unwrap_or(false)
                                 || files_read.iter().any(|f| std::fs::read_to_string(f).ok().and_then(|t| t.get(*s..*e).map(|x| x.starts_with('"') && x.ends_with('"'))).unwrap_or(false));
                             if !lit_ok {
                                 out.push(Failure::new("C18:file-not-found-range-is-not-the-path-literal", detail(format!("{s}..{e}"), "range of a quoted path".into())));
@@ -467,7 +507,7 @@ pub fn check_arrangement(a: &Arrangement, out: &mut Vec<Failure>) -> (bool, bool
                         }
                     }
                 }
-                let n_nested = a.main.matches("{ include \"").count();
+                let n_nested = l.main.matches("{ include \"").count();
                 let n_ing = g.kinds.iter().filter(|k| k.as_str() == "IncludeNotInGlobalScopeError").count();
                 if n_nested != n_ing {
                     out.push(Failure::new("C18:include-below-global-scope-count", detail(format!("{n_ing}"), format!("{n_nested}"))));
@@ -522,6 +562,9 @@ fn run_arrangements(ctx: &RunCtx, prefixes: &'static [&'static str], name: &str,
             (None, Some(_)) => "env-only",
             (None, None) => "no-search",
         });
+        if a.main.contains("{ABS:") || a.files.iter().any(|f| f.body.contains("{ABS:")) {
+            rep.class("absolute-include-path");
+        }
         if nontrivial {
             rep.nontrivial = Some(fnv64(format!("{a:?}").as_bytes()));
         }
@@ -541,9 +584,9 @@ pub fn replay_arrangement(prefix: &str, v: &serde_json::Value) -> Result<Vec<Fai
 }
 
 pub fn run_c18(ctx: &RunCtx) {
-    ctx.set_rule("file-system arrangements: 1-3 search directories, 1-4 include files with distinguishable contents (each copy declares a marker variable named after its file and directory), present in none/one/several directories, nested includes, missing files, includes below global scope, decoy stdgates.inc; search list given / absent with QASM3_PATH set or unset; three entry points. oracle (differential): analysis of main+files equals the analysis of the textually inlined program (reference resolution rule): graph, symbols, diagnostic kinds; files read = reference resolution in order; diagnostics inside an included file are tagged with its canonical path; FileNotFound sits on the path literal; IncludeNotInGlobalScopeError per nested include; stdgates.inc never read from disk; no panic. non-trivial = >=2 files read or a file present in >=2 directories; distinct by arrangement");
+    ctx.set_rule("file-system arrangements: 1-3 search directories, 1-4 include files with distinguishable contents (each copy declares a marker variable named after its file and directory), present in none/one/several directories, nested includes (chains up to 4 files), relative paths and absolute paths of one particular copy (existing or not), missing files, includes below global scope, decoy stdgates.inc; search list given / absent with QASM3_PATH set or unset; three entry points. oracle (differential): analysis of main+files equals the analysis of the textually inlined program (reference resolution rule): graph, symbols, diagnostic kinds; files read = reference resolution in order; diagnostics inside an included file are tagged with its canonical path; FileNotFound sits on the path literal; IncludeNotInGlobalScopeError per nested include; stdgates.inc never read from disk; no panic. non-trivial = >=2 files read or a file present in >=2 directories; distinct by arrangement");
     ctx.assume("include cycles are not generated (the code documents that it does not guard against them); cases that mutate QASM3_PATH are serialised under a process-wide lock; scratch directories live under harness/target/work and are removed");
-    let n = ctx.pick(4_000u64, 200_000u64);
+    let n = ctx.pick(12_000u64, 300_000u64);
     run_arrangements(ctx, &["C18:"], "arrangement", n);
     fixed_cases(ctx, "C18");
     cleanup_work();
